@@ -465,7 +465,7 @@ func TestVerifC03(t *testing.T) {
 		{K: oChPub, P: wCurPub, P2: wWrongPub}, {K: oChPub, P: wCurPub, P2: wCur},
 		{K: oExport, S: 0, P: wCur, P2: -1, Slot: 0}, {K: oExport, S: 0, P: wWrong, P2: -1, Slot: 0},
 		{K: oDelete, S: 0, P: wCur, P2: -1}, {K: oDelete, S: 0, P: wWrong, P2: -1},
-		{K: oImport, Slot: 0, P: wCur, P2: -1}, {K: oImport, Slot: 0, P: wPrevious, P2: wCur}, {K: oImport, Slot: 0, P: wCur, P2: wWrong},
+		{K: oImport, Slot: 0, P: wCur, P2: -1}, {K: oImport, Slot: 0, P: wPrevious, P2: wCur}, {K: oImport, Slot: 0, P: wCur, P2: wWrong}, {K: oImport, Slot: 0, P: wPrevious, P2: -1},
 		{K: oRestart, P: wCurPub, P2: -1},
 	}
 	var probes int64
@@ -527,6 +527,14 @@ func TestVerifC03(t *testing.T) {
 			if f := m.Files[0]; f != nil && wp != f.Pass && m.Ks[f.Seed] == nil {
 				_, _, err := in.km.ImportKeystore(f.data, pass(wp), pass(m.Priv))
 				if !probe("Import", err == nil) {
+					return false
+				}
+			}
+			// importing a keystore that is encrypted under another passphrase WITHOUT re-encrypting it
+			// (no new passphrase) into a non-empty wallet would leave two governing passphrases
+			if f := m.Files[0]; f != nil && wp == f.Pass && m.Ks[f.Seed] == nil {
+				_, _, err := in.km.ImportKeystore(f.data, pass(wp), nil)
+				if !probe("Import-keeping-foreign-passphrase", err == nil) {
 					return false
 				}
 			}
@@ -866,6 +874,25 @@ func TestVerifC01(t *testing.T) {
 					return false
 				}
 				w2.close()
+			}
+			// a wallet governed by ANOTHER private passphrase refuses the file unless it is re-encrypted
+			{
+				w5, _ := wOpen(wQ1, false, nil)
+				if _, err := w5.km.NewKeystore(pass(wOther), wSeed(5), "other", w5.km.params, wFast); err != nil {
+					vk.Fatalf("fifth wallet: %v", err)
+				}
+				raw5 := w5.rawDump()
+				if _, _, err := w5.km.ImportKeystore(file, pass(m.Priv), nil); err == nil {
+					c.viol("import-keeping-foreign-passphrase", "Import", "a wallet governed by another private passphrase imported the keystore without re-encrypting it (two governing passphrases)", hist)
+					w5.close()
+					return false
+				}
+				if !reflect.DeepEqual(raw5, w5.rawDump()) {
+					c.viol("refused-import-changed-wallet", "Import", "import refused for a foreign passphrase changed the target wallet", hist)
+					w5.close()
+					return false
+				}
+				w5.close()
 			}
 			// import under a NEW private passphrase into an empty wallet: the new one governs, the old one is dead
 			{
